@@ -37,6 +37,9 @@ def run(v, tier, seed, replay=None):
     for k in range(2 if tier == 'quick' else 8):
         sd = seed * 100 + k + 1
         variants.append(('sched:%d/delay%d' % (sd, 40 * (k % 2)), sessrun.run_impl(sched, ['FS %d %s' % (40 * (k % 2), s['tail']) for s in sess], sd)))
+    # the compression level assigned after open() and a pause, before the first write(): still the model's bytes
+    variants.append(('plain/level-set-after-open+30ms', [o.replace('FL ok', 'FS ok', 1) for o in sessrun.run_impl(plain, ['FL 30 %s' % s['tail'] for s in sess])]))
+    variants.append(('plain/level-set-after-open', [o.replace('FL ok', 'FS ok', 1) for o in sessrun.run_impl(plain, ['FL 0 %s' % s['tail'] for s in sess])]))
     nbad = 0
     for s, m, *outs in zip(sess, model, *[o for _, o in variants]):
         want = m.split(' ')[-1] if m.startswith('FW ok') else None
